@@ -16,6 +16,7 @@ from common import qlit, qlist, zlit, dyadic, coqc_many, parse_evals, parse_zlis
 
 THEOREMS = ["C20_rows_act_through_their_coefficients", "C20_ops_annihilate_constants", "C20_first_derivatives_exact_on_linear",
             "C20_mixed_exact_on_bilinear", "C20_second_exact_on_quadratic_interior",
+            "C20_second_derivative_boundary_rows_are_one_sided", "C20_first_and_mixed_exact_on_quadratic_interior",
             "C20_rows_stay_in_grid", "C20_admt_is_divergence_form",
             "C20_admt_annihilates_constants", "C20_admt_isotropic_is_laplacian",
             "C20_admt_exact_on_quadratics_interior", "C20_spacing_inferred_correctly"]
